@@ -436,6 +436,142 @@ fn decisions<X: Sx>(ctx: &Ctx, idx: u64, l: usize, m: usize) {
     }
 }
 
+/// The drafts' defaults: an absent optional argument behaves exactly like the empty one. Every combination of
+/// None / Some(empty) for every optional argument must give the same bytes (deterministic operations) and the
+/// same decision (verifiers), also crosswise (artefact made with one combination, checked with another).
+fn options<X: Sx>(ctx: &Ctx, idx: u64) {
+    let mut r = ctx.rng("c10o", idx);
+    let (sk, pk) = keypair::<X>(&mut r);
+    let e: &[u8] = &[];
+    let ev: &[Vec<u8>] = &[];
+    let ei: &[usize] = &[];
+    let opt_b = [None, Some(e)];
+    let opt_m = [None, Some(ev)];
+    let opt_i = [None, Some(ei)];
+    let bad = |what: &str, detail: String| ctx.violation(&format!("C10:none-vs-empty/{}", what), json!({"suite":name::<X>(),"detail":detail}));
+    // L = 0 signature: messages and header both optional
+    let mut sigs = vec![];
+    for h in opt_b {
+        for m in opt_m {
+            let case = format!("{}/options/sign/h{}m{}", name::<X>(), h.is_some(), m.is_some());
+            ctx.distinct(&case);
+            match ctx.call("sign", &case, None, || Sig::<X>::sign(m, &sk, &pk, h)).value {
+                Some(s) => sigs.push(s),
+                None => bad("sign", case),
+            }
+        }
+    }
+    if sigs.windows(2).any(|w| w[0].to_bytes() != w[1].to_bytes()) {
+        bad("sign", "signatures differ between None/empty combinations".into());
+    }
+    let Some(sig) = sigs.pop() else { return };
+    for h in opt_b {
+        for m in opt_m {
+            let case = format!("{}/options/verify/h{}m{}", name::<X>(), h.is_some(), m.is_some());
+            ctx.distinct(&case);
+            if !ctx.call("verify", &case, None, || sig.verify(&pk, m, h)).outcome.is_ok() {
+                bad("verify", case);
+            }
+        }
+    }
+    // proofs over the empty message list and over a non-empty one with nothing disclosed
+    let msgs = gen_messages(&mut r, 2, 0);
+    let sig2 = Sig::<X>::sign(Some(&msgs), &sk, &pk, None).unwrap();
+    for (mlist, sg) in [(None, &sig), (Some(&msgs[..]), &sig2)] {
+        for h in opt_b {
+            for ph in opt_b {
+                for di in opt_i {
+                    let case = format!("{}/options/proof/L{}h{}p{}d{}", name::<X>(), mlist.map(|m| m.len()).unwrap_or(0), h.is_some(), ph.is_some(), di.is_some());
+                    ctx.distinct(&case);
+                    let Some(p) = ctx.call("proof_gen", &case, None, || Pok::<X>::proof_gen(&pk, &sg.to_bytes(), h, ph, mlist, di)).value else {
+                        bad("proof_gen", case);
+                        continue;
+                    };
+                    // verify with every combination on the verifier side
+                    for h2 in opt_b {
+                        for ph2 in opt_b {
+                            for (dm2, di2) in [(None, None), (Some(ev), Some(ei)), (None, Some(ei)), (Some(ev), None)] {
+                                if !ctx.call("proof_verify", &case, None, || p.proof_verify(&pk, dm2, di2, h2, ph2)).outcome.is_ok() {
+                                    bad("proof_verify", format!("{} verified with h{} p{} m{} d{}", case, h2.is_some(), ph2.is_some(), dm2.is_some(), di2.is_some()));
+                                }
+                            }
+                        }
+                    }
+                }
+            }
+        }
+    }
+    // blind interface
+    for cmo in opt_m {
+        let case = format!("{}/options/commit/c{}", name::<X>(), cmo.is_some());
+        ctx.distinct(&case);
+        let Some((com, bf)) = ctx.call("commit", &case, None, || Com::<X>::commit(cmo)).value else {
+            bad("commit", case);
+            continue;
+        };
+        let cwp = com.to_bytes();
+        let mut bsigs = vec![];
+        for h in opt_b {
+            for m in opt_m {
+                match ctx.call("blind_sign", &case, None, || BSig::<X>::blind_sign(&sk, &pk, Some(&cwp), h, m)).value {
+                    Some(b) => bsigs.push(b),
+                    None => bad("blind_sign", case.clone()),
+                }
+            }
+        }
+        if bsigs.windows(2).any(|w| w[0].to_bytes() != w[1].to_bytes()) {
+            bad("blind_sign", "blind signatures differ between None/empty combinations".into());
+        }
+        let Some(bs) = bsigs.pop() else { continue };
+        for h in opt_b {
+            for m in opt_m {
+                for c2 in opt_m {
+                    if !ctx.call("verify_blind_sign", &case, None, || bs.verify_blind_sign(&pk, h, m, c2, Some(&bf))).outcome.is_ok() {
+                        bad("verify_blind_sign", format!("{} h{} m{} c{}", case, h.is_some(), m.is_some(), c2.is_some()));
+                    }
+                }
+            }
+        }
+        for (m, c2, d, dc) in [(None, None, None, None), (Some(ev), Some(ev), Some(ei), Some(ei)), (None, Some(ev), Some(ei), None), (Some(ev), None, None, Some(ei))] {
+            let Some(p) = ctx.call("blind_proof_gen", &case, None, || Pok::<X>::blind_proof_gen(&pk, &bs.to_bytes(), None, None, m, c2, d, dc, Some(&bf))).value else {
+                bad("blind_proof_gen", case.clone());
+                continue;
+            };
+            for l in [None, Some(0usize)] {
+                for (m2, c3, d2, dc2) in [(None, None, None, None), (Some(ev), Some(ev), Some(ei), Some(ei)), (Some(ev), None, Some(ei), None)] {
+                    for h2 in opt_b {
+                        if !ctx.call("blind_proof_verify", &case, None, || p.blind_proof_verify(&pk, h2, h2, l, m2, c3, d2, dc2)).outcome.is_ok() {
+                            bad("blind_proof_verify", format!("{} L{:?} m{} c{} h{}", case, l, m2.is_some(), c3.is_some(), h2.is_some()));
+                        }
+                    }
+                }
+            }
+        }
+    }
+    // no commitment at all: None and the empty octet string are the same request
+    let a = BSig::<X>::blind_sign(&sk, &pk, None, None, None).map(|b| b.to_bytes());
+    let b = BSig::<X>::blind_sign(&sk, &pk, Some(e), Some(e), Some(ev)).map(|b| b.to_bytes());
+    if a.is_err() || a.as_ref().ok() != b.as_ref().ok() {
+        bad("blind_sign-without-commitment", "None vs empty".into());
+    } else if let Ok(bytes) = a {
+        let bs = BSig::<X>::from_bytes(&bytes).unwrap();
+        for (c2, bfo) in [(None, None), (Some(ev), None)] {
+            if !ctx.call("verify_blind_sign", "options/no-commitment", None, || bs.verify_blind_sign(&pk, None, None, c2, bfo)).outcome.is_ok() {
+                bad("verify_blind_sign-without-commitment", format!("c{}", c2.is_some()));
+            }
+        }
+    }
+    // generators: None == empty api id ; key generation: None == empty key_info
+    if Generators::create::<X::CS>(5, None).values != Generators::create::<X::CS>(5, Some(e)).values {
+        bad("generators", "None vs empty api id".into());
+    }
+    let ikm = rand_bytes(&mut r, 32);
+    if Kp::<X>::generate(&ikm, None, None).ok().map(|k| k.private_key().to_bytes()) != Kp::<X>::generate(&ikm, Some(e), None).ok().map(|k| k.private_key().to_bytes()) {
+        bad("key_gen", "None vs empty key_info".into());
+    }
+    ctx.count("option_equivalence_sweeps", 1);
+}
+
 static OVERLAPS: OnceLock<Mutex<BTreeSet<(String, String)>>> = OnceLock::new();
 static ACTIVE: OnceLock<Mutex<BTreeMap<&'static str, usize>>> = OnceLock::new();
 static OPS_THREADED: AtomicUsize = AtomicUsize::new(0);
@@ -524,6 +660,10 @@ pub fn scenarios(ctx: &Ctx) -> Vec<Scenario> {
             v.push(scenario(format!("decisions/sha/L{l}M{m}"), move |c| decisions::<Sha>(c, i, l, m)));
             v.push(scenario(format!("decisions/shake/L{l}M{m}"), move |c| decisions::<Shake>(c, i + 10, l, m)));
         }
+    }
+    for rep in 0..ctx.t(1u64, 4u64) {
+        v.push(scenario("options/sha", move |c| options::<Sha>(c, 900 + rep)));
+        v.push(scenario("options/shake", move |c| options::<Shake>(c, 950 + rep)));
     }
     // schedules: 2 / 8 / 16 threads, three repetitions
     for (k, &t) in [2usize, 8, 16].iter().enumerate() {
